@@ -603,7 +603,7 @@ class DimensionValue(Value):
 
             sign, v, d = self.__reUnNumDim.findall(normalize(item.value))[0]
             try:
-                if '.' in v and len(v) > 15 and not v.split('.')[1].strip('0'):
+                if '.' in v and v.index('.') > 15 and not v.split('.')[1].strip('0'):
                     # "9007199254740993.0": an integer a float cannot hold
                     val = int(sign + (v.split('.')[0] or '0'))
                 elif '.' in v:
